@@ -678,6 +678,147 @@ theorem spec_transpose_cell (rs : Rows α) (h : Rows.Wf rs) (i j : Nat) (hi : i 
   rw [e] at this
   rw [this, ← cell_toRows, e]
 
+/-! ### the layout claim, the unchecked getter, the whole-matrix iterators -/
+
+/-- **`MatrixRef` for `Matrix` is truthful.**  For a matrix satisfying the invariant and every
+    index inside the size: the checked getter (`try_get_reference`, the trait route and the
+    inherent one are the same function) finds an element; the unchecked getter reads the very same
+    storage cell (`data[column + row·columns]`, inside the storage); and the `RowMajor` layout
+    claim holds: that cell is position `row·columns + column` of the concatenated list of rows and
+    holds the cell `(row, column)` of the list of rows.  Outside the size the checked getter
+    answers `None`. -/
+theorem matrix_ref_refines (m : Matrix α) (h : m.Inv) (r c : Nat) :
+    (r < m.rows → c < m.columns →
+      (∃ x, m.tryGet r c = some x) ∧
+      m.data[m.getIndex r c]? = m.tryGet r c ∧
+      m.collectUnchecked [(r, c)] = .ok ((m.tryGet r c).toList) ∧
+      (abs m).flatten[r * m.columns + c]? = m.tryGet r c ∧
+      m.tryGet r c = Rows.cell (abs m) r c) ∧
+    (¬ (r < m.rows ∧ c < m.columns) → m.tryGet r c = none ∧ Rows.cell (abs m) r c = none) := by
+  constructor
+  · intro hr hc
+    obtain ⟨x, hx⟩ := tryGet_isSome m h.1 hr hc
+    have hcell := cell_toRows m r c
+    refine ⟨⟨x, hx⟩, by simp [Matrix.tryGet, hr, hc], ?_, ?_, hcell.symm⟩
+    · rw [collectUnchecked_ok m h.1 [(r, c)] (by intro p hp; simp at hp; rw [hp]; exact ⟨hr, hc⟩)]
+      simp [hx]
+    · rw [← hcell]
+      have := flatten_getElem?_rect (abs m) (rect_toRows m h) r c
+        (by rw [length_toRows]; exact hr) hc
+      exact this
+  · intro hn
+    have : m.tryGet r c = none := by simp [Matrix.tryGet, hn]
+    exact ⟨this, by rw [← this]; exact cell_toRows m r c⟩
+
+/-- **The whole-matrix iterators** (`row_major_*`, `column_major_*` in the copying, reference,
+    `&mut`, owned and `with_index` flavours all walk the same positions, C09): reading the index
+    pairs of the size in row-major order yields the concatenated list of rows — i.e. the storage
+    itself, cell `k` at call `k` —, and in column-major order the concatenated transposed rows;
+    every position holds an element. -/
+theorem whole_matrix_iterators_refine (m : Matrix α) (h : m.Inv) :
+    (indexPairs m.rows m.columns).filterMap (fun p => m.tryGet p.1 p.2) = (abs m).flatten ∧
+    ((indexPairs m.columns m.rows).filterMap fun p => m.tryGet p.2 p.1) =
+      (Rows.transpose (abs m)).flatten ∧
+    m.collectUnchecked (indexPairs m.rows m.columns) = .ok (abs m).flatten ∧
+    (abs m).flatten = m.data := by
+  have hd := flatten_toRows m h
+  refine ⟨by rw [rowMajor_tryGet_eq_data m h, hd], ?_, ?_, hd⟩
+  · -- column-major: the transposed matrix read row-major
+    obtain ⟨_, hinv, ht⟩ := transpose_spec m h
+    generalize m.transpose.state = t at hinv ht
+    have htr : t.rows = m.columns := by rw [← length_toRows t, ht, length_transpose_toRows m h]
+    have htc : t.columns = m.rows := by
+      rw [← ncols_toRows t hinv, ht]
+      exact ncols_of_rect (rect_transpose_toRows m h)
+        (by rw [length_transpose_toRows m h]; exact h.2.2)
+    have h1 := rowMajor_tryGet_eq_data t hinv
+    rw [htr, htc] at h1
+    rw [← ht, flatten_toRows t hinv, ← h1]
+    apply filterMap_congr'
+    intro p hp
+    have hp' := mem_indexPairs.mp hp
+    rw [← cell_toRows t p.1 p.2, ht, cell_transpose_toRows m h p.1 p.2 hp'.1 hp'.2]
+  · rw [collectUnchecked_ok m h.1 _ (fun p hp => mem_indexPairs.mp hp), rowMajor_tryGet_eq_data m h, hd]
+
+/-- **`Display`** (`format_view` behind `impl Display for Matrix`, any element renderer — the
+    precision argument only changes that renderer): on a matrix satisfying the invariant it never
+    panics and the text is a function of the list of rows alone: `[ `, the rows with `, ` between
+    cells, two spaces before and a newline between rows, ` ]`. -/
+theorem display_refines (sh : α → String) (m : Matrix α) (h : m.Inv) :
+    m.display sh = .ok (Rows.display sh (abs m)) :=
+  display_spec sh m h
+
+/-- the documented example text of a 2×2 matrix, and a single column -/
+example : (⟨[1, 2, 3, 4], 2, 2⟩ : Matrix Nat).display toString = .ok "[ 1, 2\n  3, 4 ]" ∧
+    Rows.display toString ([[7], [8], [9]] : Rows Nat) = "[ 7\n  8\n  9 ]" := ⟨rfl, rfl⟩
+
+/-! ### hypothesis-free: every matrix a program can hold -/
+
+/-- The matrices a program can hold: built by any public constructor with any arguments, then
+    subjected to any finite history over the extended alphabet (any arguments, valid or not,
+    user closures / iterators panicking at any call). -/
+def Reachable (m : Matrix α) : Prop :=
+  ∃ (c : Ctor α) (m0 : Matrix α) (xs : List (XOp α)), c.build = .ok m0 ∧ m = m0.xrun xs
+
+/-- every reachable matrix satisfies the invariant — no hypothesis left -/
+theorem reachable_inv (m : Matrix α) (hr : Reachable m) : m.Inv := by
+  obtain ⟨c, m0, xs, hb, rfl⟩ := hr
+  exact (constructed_xhistory_refines c m0 hb xs).1
+
+/-- reachability is closed under every further (extended) operation -/
+theorem reachable_step (m : Matrix α) (hr : Reachable m) (x : XOp α) :
+    Reachable (m.xexec x).state := by
+  obtain ⟨c, m0, xs, hb, rfl⟩ := hr
+  refine ⟨c, m0, xs ++ [x], hb, ?_⟩
+  have : ∀ (a : Matrix α) (l : List (XOp α)), a.xrun (l ++ [x]) = ((a.xrun l).xexec x).state := by
+    intro a l
+    induction l generalizing a with
+    | nil => rfl
+    | cons y l ih => simp only [List.cons_append, Matrix.xrun]; exact ih _
+  exact (this m0 xs).symm
+
+/-- **The headline statements without hypotheses**: for every reachable matrix and every
+    (extended) operation with any arguments — the observations are those of the list of rows
+    (size, every element, storage, at least 1×1); the operation refines the list-of-rows model,
+    panics exactly when that model does, and keeps the invariant; a panic other than that of an
+    in-place map's closure leaves the matrix untouched; ordinary operations panic only by a library
+    assertion. -/
+theorem reachable_headline (m : Matrix α) (hr : Reachable m) (x : XOp α) :
+    Rows.Wf (abs m) ∧ m.size = (Rows.nrows (abs m), Rows.ncols (abs m)) ∧
+    (∀ r c, m.tryGet r c = Rows.cell (abs m) r c) ∧ m.data = (abs m).flatten ∧
+    (m.xexec x).state.Inv ∧ abs (m.xexec x).state = Rows.xnext (abs m) x ∧
+    (m.xexec x).panic.isSome = Rows.xpanics (abs m) x ∧
+    (((∀ f k, x ≠ .mapMutPanic f k) ∧ (∀ g k, x ≠ .mapMutWithIndexPanic g k)) →
+      (m.xexec x).panic ≠ none → (m.xexec x).state = m) ∧
+    (∀ o k, x = .op o → m.step o = .panic k → k = .explicit) := by
+  have h := reachable_inv m hr
+  obtain ⟨s1, s2, s3⟩ := xstep_refines m h x
+  refine ⟨abs_wf m h, size_refines m h, get_refines m, data_eq_flatten m h, s1, s2, s3,
+    fun hx hp => xpanic_frame m h x hx hp, ?_⟩
+  intro o k _ hk
+  exact (step_panics_iff_precondition_fails m h o).2 k hk
+
+/-- the read-only API on every reachable matrix: getters, scalar accessors, equality, clone,
+    conversion — all functions of the list of rows, none panics unexpectedly -/
+theorem reachable_readonly [BEq α] [LawfulBEq α] (a b : Matrix α) (ha : Reachable a)
+    (hb : Reachable b) (i : Nat) :
+    a.rowIter i = Rows.rowAt (abs a) i ∧ a.columnIter i = Rows.columnAt (abs a) i ∧
+    a.diagonalIter = .ok (Rows.diagonal (abs a)) ∧ a.scalarP = Rows.scalar (abs a) ∧
+    a.tryIntoScalar = .ok (Rows.tryIntoScalar (abs a)) ∧ a.clone = .ok a ∧
+    (a.eqP b = true ↔ abs a = abs b) ∧ (abs a = abs b → a = b) := by
+  have h := reachable_inv a ha
+  have h' := reachable_inv b hb
+  exact ⟨rowIter_refines a h i, columnIter_refines a h i, diagonalIter_refines a h,
+    scalar_refines a h, tryIntoScalar_refines a h, clone_refines a h, eq_refines a b h h',
+    abs_injective a b h h'⟩
+
+/-- non-vacuity of `Reachable`: a matrix built by `from_diagonal`, grown, hit by a panicking
+    closure and shrunk again is reachable, and is not the matrix it started from -/
+example : Reachable (⟨[27, 20, 10, 18], 2, 2⟩ : Matrix Nat) :=
+  ⟨.fromDiagonal 0 [7, 8], ⟨[7, 0, 0, 8], 2, 2⟩,
+    [.op (.insertRow 1 5), .mapMutPanic (· + 10) 2, .op (.removeRow 1), .op (.mapMut (· + 10)),
+     .op (.removeRow 7)], rfl, by decide⟩
+
 /-! ### non-vacuity -/
 
 /-- a concrete 2×3 matrix satisfies the invariant … -/
@@ -718,6 +859,34 @@ example : Rows.ctorPre (Ctor.fromDiagonal 0 [7, 8, 9] : Ctor Nat) = true ∧
     Rows.ctorPre (Ctor.empty 1 (2 ^ 63) 2 : Ctor Nat) = false ∧
     Rows.ctorPre (Ctor.row [] : Ctor Nat) = false :=
   ⟨by decide, rfl, by decide, by decide, by decide⟩
+
+/-- `retain_congr`: two differently shaped slice expressions that denote the same set -/
+example : SliceEquiv (.not (.or (.single 0) (.range 2 9))) (.and (.not (.single 0)) (.not (.range 2 9))) :=
+  (slice_algebra (.single 0) (.range 2 9) 0 0 0 0).2.2.1
+
+/-- `round_trips`: its position hypotheses hold for a middle row of a 3×2 matrix, and the row that
+    is removed and re-inserted is `[3, 4]` -/
+example : (1 ≤ (⟨[1, 2, 3, 4, 5, 6], 3, 2⟩ : Matrix Nat).rows) ∧
+    1 < (⟨[1, 2, 3, 4, 5, 6], 3, 2⟩ : Matrix Nat).rows ∧
+    (abs (⟨[1, 2, 3, 4, 5, 6], 3, 2⟩ : Matrix Nat))[1]? = some [3, 4] := by decide
+
+/-- `xpanic_frame`: an operation that is not an in-place map and does panic (the iterator's `next`
+    panics on its second call) -/
+example : ((⟨[1, 2, 3, 4, 5, 6], 3, 2⟩ : Matrix Nat).xexec (.insertRowWithPanic 1 [7, 8] 1)).panic ≠ none := by
+  decide
+
+/-- `trySet_refines` / `matrix_ref_refines` / `intoTensor_refines`: an index inside and one outside
+    a 2×3 matrix, two different dimension names -/
+example : Rows.pre (abs (⟨[1, 2, 3, 4, 5, 6], 2, 3⟩ : Matrix Nat)) (.set 1 2 9) = true ∧
+    Rows.pre (abs (⟨[1, 2, 3, 4, 5, 6], 2, 3⟩ : Matrix Nat)) (.set 2 0 9) = false ∧
+    (⟨[1, 2, 3, 4, 5, 6], 2, 3⟩ : Matrix Nat).tryGet 1 2 = some 6 ∧
+    (abs (⟨[1, 2, 3, 4, 5, 6], 2, 3⟩ : Matrix Nat)).flatten[1 * 3 + 2]? = some 6 ∧
+    ("row" : String) ≠ "column" := by decide
+
+/-- `eq_refines` / `abs_injective`: two matrices with the invariant and equal lists of rows -/
+example : (⟨[1, 2], 1, 2⟩ : Matrix Nat).Inv ∧
+    abs ((⟨[1, 2, 9, 9], 2, 2⟩ : Matrix Nat).run [.removeRow 1]) = abs (⟨[1, 2], 1, 2⟩ : Matrix Nat) := by
+  decide
 
 /-! ### the unrepaired code violates these statements (defect witnesses)
 
